@@ -88,17 +88,42 @@ func vpWriteSample(tag string, shape int, w io.Writer) (error, int) {
 }
 
 // vpTemplate: 3+k tab-separated fields of 1 symbolic byte (no TAB/LF inside;
-// RGB and block lists 3 bytes so that commas can appear anywhere).
+// RGB 5 bytes, block count 2, block lists 3, so that well-formed values fit).
 func vpTemplate(k int) []byte {
 	n := 3 + k
 	var out []byte
+	// lines with 9 fields and more keep their leading fields concrete and
+	// valid, so that the later fields are reached and the search stays small:
+	// symbolic are the last field(s) only (9 fields: the RGB triple; 10: the
+	// block count; 11, 12: block count and block lists)
+	fixed := []string{"c", "1", "2", "n", "5", "+", "1", "2", "1,2,3", "2"}
+	firstSym := 0
+	if n >= 9 {
+		firstSym = 8
+	}
+	if n >= 10 {
+		firstSym = 9
+	}
+	if n >= 12 {
+		firstSym = 10 // 12 fields: block count 2, both block lists symbolic
+	}
 	for i := 0; i < n; i++ {
 		if i > 0 {
 			out = append(out, '\t')
 		}
+		if i < firstSym {
+			out = append(out, fixed[i]...)
+			continue
+		}
 		ln := 1
-		if i == 8 || i >= 10 {
+		if i >= 10 {
 			ln = 3
+		}
+		if i == 8 {
+			ln = 5 // "r,g,b" needs five bytes: with fewer no line gets past this field
+		}
+		if i == 9 {
+			ln = 2 // the block count: room for a sign or two digits
 		}
 		tok := vpBytes("f"+vpNum(i), ln)
 		for _, c := range tok {
